@@ -90,9 +90,17 @@ package pubsub
 //@   property C14
 //@   cancellable
 
+// Relay (C05): a relay is never requested for a closed or a fanout-only topic (this is the
+// precondition handleAddRelay relies on); otherwise at most one request, for this topic, reaches
+// the event loop.
 //@ func (*Topic).Relay
-//@   property C14
+//@   property C14 C05
 //@   cancellable
+//@   requires state: t != nil && t.p != nil
+//@   noframe
+//@   ensures refused-for-closed-or-fanout-only: old(t.closed) || old(t.fanoutOnly) ==> result1 != nil && sent(t.p.addRelay) == old(sent(t.p.addRelay))
+//@   ensures at-most-one-request-for-this-topic: sent(t.p.addRelay) - old(sent(t.p.addRelay)) <= 1 &&
+//@        (sent(t.p.addRelay) > old(sent(t.p.addRelay)) ==> lastsent(t.p.addRelay) != nil && lastsent(t.p.addRelay).topic == t.topic)
 
 //@ func (*Topic).SetScoreParams
 //@   property C14
